@@ -332,6 +332,29 @@ def check_property(prop, tier, jobs, level_text, assumptions, functions_note="",
             futs[ex.submit(_safe_run, j, seed)] = j
         for fu in cf.as_completed(futs):
             results.append(fu.result())
+    # second chance: a job that gave no verdict (engine killed, solver answered unknown, budget ran out on a job that
+    # must finish) is run once more, with no other jobs of the first round competing, DFS order, twice the time budget
+    # and three times the per-query timeout; its second result replaces the first
+    def _no_verdict(r):
+        res = r["res"]
+        if res is None:
+            return True
+        if res["violations"]:
+            return False
+        return bool(res.get("inconclusive")) or (res.get("pending", 0) > 0 and not r["job"].allow_partial)
+    again = [r for r in results if _no_verdict(r)]
+    if again:
+        import copy
+        with cf.ThreadPoolExecutor(NCPU) as ex:
+            futs = {}
+            for r in again:
+                j2 = copy.copy(r["job"]); j2.timeout = 2 * j2.timeout; j2.query_timeout_ms = 3 * j2.query_timeout_ms
+                futs[ex.submit(_safe_run, j2, 0)] = r
+            for fu in cf.as_completed(futs):
+                r2 = fu.result(); r0 = futs[fu]
+                r2["job"] = r0["job"]; r2["retried"] = True
+                results[results.index(r0)] = r2
+        print("RETRIED property=%s: %s" % (prop, ", ".join(r["job"].name for r in again)))
     results.sort(key=lambda r: r["job"].name)
     violations, known_hits, inconclusive = [], [], []
     nreplayed = 0
